@@ -19,7 +19,7 @@ CHECKS = {
     "C01": {
         "level": "exploration",
         "technique": _TECH + ": seeded send/receive API histories over two real streams on a simulated connection, reference list-of-messages model",
-        "level_text": "Seeded exploration: every run drives two real cedar streams (plain or AES-GCM) through generated histories of every sender API x write composition x receiver API in both directions at once over a simulated TCP with drawn segmentation, latency, short reads and send window; the oracle is the list of messages whose send calls all returned nil. The band of sizes around the 1 MiB frame limit is swept exhaustively. Right level because the property quantifies over histories and sizes, which can only be sampled, while the known failure band is finite and is enumerated.",
+        "level_text": "Seeded exploration: every run drives two real cedar streams (plain or AES-GCM) through generated histories of every sender API x write composition x receiver API in both directions at once over a simulated TCP with drawn segmentation, latency, short reads and send window; the oracle is the list of messages whose send calls all returned nil. The band of sizes around the 1 MiB frame limit is swept exhaustively, and so is every composition of every short message (0-6 bytes; 0-5 in quick), alone and with one empty write at every position, x the three multi-write sender APIs x the five receive APIs x both modes, as first and as later message. Right level because the property quantifies over histories and sizes, which can only be sampled, while the known failure band is finite and is enumerated.",
         "level_note": "Trusts Go's AES-GCM, the simulator's TCP semantics (in-order, reliable, arbitrary segmentation) and that keys installed by SetSymmetricKey behave like negotiated ones. Typed values are compared by value (their byte layout is C14's subject).",
         "budget": {"quick": 25, "thorough": 900},
         "rule": "a case is one simulated run: two real streams over a simulated connection, 1-6 generated messages per direction "
